@@ -370,6 +370,8 @@ int main(void){
       tables = bufr_create_tables();
       int r1 = bufr_load_m_tableB(tables,a), r2 = bufr_load_m_tableD(tables,b);
       printf("MTABLES %d %d\n", r1, r2); }
+    else if(!strcmp(tok,"LOADLB")){ char *a=strtok_r(NULL," ",&save); printf("LOADLB %d\n", bufr_load_l_tableB(tables, a)); }   /* into the EXISTING tables object */
+    else if(!strcmp(tok,"LOADLD")){ char *a=strtok_r(NULL," ",&save); printf("LOADLD %d\n", bufr_load_l_tableD(tables, a)); }
     else if(!strcmp(tok,"TABLES")){ char *a=strtok_r(NULL," ",&save), *b=strtok_r(NULL," ",&save); load_tables(a,b); printf("TABLES ok\n"); }
     else if(!strcmp(tok,"E")) do_E(&save);
     else if(!strcmp(tok,"A")) do_A(&save);
